@@ -921,8 +921,13 @@ def inline_helpers(text):
             args.append(last)
         if method_recv is not None:
             args = [method_recv[1]] + args
-        if len(args) != len(params) or not all(_PLACE.match(a) for a in args):
-            raise Undecided(f"R25: call of helper `{toks[hit].text}` with arguments that are not plain places")
+        if len(args) != len(params):
+            raise Undecided(f"R25: call of helper `{toks[hit].text}` with {len(args)} arguments for {len(params)} parameters")
+        if not all(_PLACE.match(a) for a in args):
+            # arguments with possible effects must be evaluated exactly once, in order, before the body: the let-block form (R25b) does that
+            if len(ptypes) != len(params) or (method_recv is not None and not _PLACE.match(args[0])):
+                raise Undecided(f"R25: call of helper `{toks[hit].text}` with arguments that are not plain places")
+            blk = True
         et = tokenize(expr)
         out, pos = [], 0
         # R25b (block body): ordinary parameters are let-bound with their declared types in front of the body -- the meaning of a call --
